@@ -1,7 +1,8 @@
 from _common import COMMON_NOTE
 
 META = {'title': 'SNA save then load restores the machine; saving is side-effect free',
- 'lean_modules': ['ZxVerif.Props.C13'],
+ 'lean_modules': ['ZxVerif.Props.C13', 'ZxVerif.Props.C13X'],
+ 'extract': ['SnaLayout'],
  'modelled_code': ['rustzx-core/src/emulator/snapshot/sna.rs (load, save, ScopedSnapshotState)',
                    'rustzx-z80/src/registers.rs (setters used by load, get_*_alt used by save)',
                    'rustzx-z80/src/cpu.rs (set_im, push_pc_to_stack, pop_pc_from_stack)',
